@@ -1,54 +1,66 @@
 mod clock;
+mod e2e;
+mod framework;
 mod prng;
+mod props;
+mod reagg;
+mod scen;
 mod sim;
+mod truth;
 mod wire;
 mod world;
 
-use std::net::{IpAddr, Ipv4Addr};
-use world::*;
-
-fn smoke() {
-    let target = IpAddr::V4(Ipv4Addr::new(10, 9, 0, 1));
-    let hops: Vec<HopSpec> = (1..=4u8)
-        .map(|i| HopSpec::simple(IpAddr::V4(Ipv4Addr::new(10, 0, i, 1)), 1_000_000 * u64::from(i)))
-        .collect();
-    let topo = Topology {
-        hops,
-        target: HopSpec::simple(target, 7_000_000),
-        tcp: TcpMode::SynAck,
-    };
-    let wcfg = WorldCfg {
-        host_v4: Ipv4Addr::new(192, 168, 1, 2),
-        host_v6: "fd00::2".parse().unwrap(),
-        topo,
-        adversary: Adversary::default(),
-        faults: FaultPlan::default(),
-        seed: 1,
-        tracers: 1,
-    };
-    let tcfg = sim::TraceCfg::new(target);
-    let t0 = clock::real_now_ns();
-    let (world, r) = sim::run_single(wcfg, &tcfg, true).unwrap();
-    let dt = clock::real_now_ns() - t0;
-    println!("result={:?} rounds={} wall={}us", r.result, r.rounds.len(), dt / 1000);
-    for round in &r.rounds {
-        println!("round {} largest_ttl={} reason={:?} t={}", round.index, round.largest_ttl, round.reason, round.t_publish - clock::EPOCH_NS);
-        for p in &round.probes {
-            match p {
-                trippy_core::ProbeStatus::Complete(c) => println!("  C ttl={} seq={} host={} rtt={:?} {:?}", c.ttl.0, c.sequence.0, c.host, c.received.duration_since(c.sent).unwrap(), c.icmp_packet_type),
-                trippy_core::ProbeStatus::Awaited(a) => println!("  A ttl={} seq={}", a.ttl.0, a.sequence.0),
-                other => println!("  {other:?}"),
-            }
-        }
-    }
-    let w = world.inner.lock().unwrap();
-    println!("log entries={} wires={} pkts={}", w.log.len(), w.wires.len(), w.pkts.len());
-}
+use framework::Tier;
 
 fn main() {
     let args: Vec<String> = std::env::args().collect();
-    match args.get(1).map(String::as_str) {
-        Some("smoke") => smoke(),
-        _ => eprintln!("usage: vcheck <cmd>"),
+    let Some(prop) = args.get(1).cloned() else {
+        eprintln!("usage: vcheck <Cxx> [--tier quick|thorough] [--seed N] [--only I]");
+        std::process::exit(2);
+    };
+    let mut tier = match std::env::var("VERIF_TIER").as_deref() {
+        Ok("thorough") => Tier::Thorough,
+        _ => Tier::Quick,
+    };
+    let mut seed: u64 = std::env::var("VERIF_SEED").ok().and_then(|s| s.parse().ok()).unwrap_or(1);
+    let mut only: Option<usize> = None;
+    let mut i = 2;
+    while i < args.len() {
+        match args[i].as_str() {
+            "--tier" => {
+                tier = if args.get(i + 1).map(String::as_str) == Some("thorough") { Tier::Thorough } else { Tier::Quick };
+                i += 1;
+            }
+            "--seed" => {
+                seed = args.get(i + 1).and_then(|s| s.parse().ok()).unwrap_or(seed);
+                i += 1;
+            }
+            "--only" => {
+                only = args.get(i + 1).and_then(|s| s.parse().ok());
+                i += 1;
+            }
+            "--replay" => {
+                // a replay file names the scenario index and seed
+                if let Some(v) = args.get(i + 1).and_then(|p| std::fs::read_to_string(p).ok()).and_then(|s| serde_json::from_str::<serde_json::Value>(&s).ok()) {
+                    seed = v.get("seed").and_then(serde_json::Value::as_u64).unwrap_or(seed);
+                    only = v.pointer("/case/scenario").and_then(serde_json::Value::as_u64).map(|x| x as usize);
+                    if v.get("tier").and_then(serde_json::Value::as_str) == Some("thorough") {
+                        tier = Tier::Thorough;
+                    }
+                }
+                i += 1;
+            }
+            _ => {}
+        }
+        i += 1;
     }
+    framework::install_panic_hook();
+    let code = match prop.as_str() {
+        "C01" => props::c01::run(tier, seed, only),
+        _ => {
+            eprintln!("unknown property {prop}");
+            2
+        }
+    };
+    std::process::exit(code);
 }
